@@ -11,7 +11,7 @@
   denominator the code divides by is non-zero at the occupation where it is evaluated. *)
 Require Import List ZArith QArith Bool.
 Require Import PV.NOF.Gauss PV.NOF.Coeff PV.NOF.Fock PV.NOF.FockLemmas PV.NOF.LinComb PV.NOF.Model
-  PV.NOF.NofProof PV.NOF.NofProof2 PV.NOF.SolveScalar PV.NOF.ScalarProof PV.NOF.C08Lemmas PV.NOF.C16C07Lemmas.
+  PV.NOF.NofProof PV.NOF.NofProof2 PV.NOF.SolveScalar PV.NOF.ScalarProof PV.NOF.ScalarDiag PV.NOF.C08Lemmas PV.NOF.C16C07Lemmas.
 Import ListNotations.
 Local Open Scope Z_scope.
 
@@ -31,3 +31,21 @@ Example C16_scalar_nonvacuous :
   sig_ok ex_ks = true /\ wf_nof ex_ks ex_x /\ bok ex_ks ex_n2 /\ denom_ok ex_ks ex_hi ex_hj ex_x ex_n2 /\
   ~ lc_eq (den ex_ks (solve_scalar ex_ks ex_x ex_hi ex_hj false) ex_n2) [].
 Proof. exact c16_ex_nonvacuous. Qed.
+
+(** diagonal elements ([diagonal=True], H_ii = H_jj = H with real coefficients): the code solves only
+    the terms of Y with lexicographically negative powers ([yneg y]) and returns X0 - X0†.  Then
+    [H, X] = Y_neg + Y_neg†  ([comm ks h x n] = H X e_n - X H e_n), i.e. for a Hermitian Y all of Y
+    except its zero-shift term (which no solution can produce: [H, X] has none).  [denom_ok_adj] is
+    the non-vanishing of the same denominators at the occupations met by the adjoint terms. *)
+Theorem C16_scalar_diagonal : forall ks y h n,
+  sig_ok ks = true -> wf_nof ks y -> bok ks n -> creal h ->
+  denom_ok ks h h (yneg y) n -> denom_ok_adj ks h (yneg y) n ->
+  let x := solve_scalar ks y h h true in
+  lc_eq (comm ks h x n) (den ks (yneg y) n ++ den ks (adj (yneg y)) n).
+Proof. exact solve_scalar_diag_correct. Qed.
+Print Assumptions C16_scalar_diagonal.
+
+Example C16_scalar_diagonal_nonvacuous :
+  creal ex_hi /\ denom_ok ex_ks ex_hi ex_hi (yneg ex_x) ex_n2 /\ denom_ok_adj ex_ks ex_hi (yneg ex_x) ex_n2 /\
+  ~ lc_eq (den ex_ks (yneg ex_x) ex_n2) [].
+Proof. exact c16_ex_diag_nonvacuous. Qed.
